@@ -68,7 +68,7 @@ CLAIMED = {
             "implementation: directory state before every operation (validated against real fork+os._exit for a sample), reopened by a fresh instance, compared with run_crash and checked by the property's own oracle.",
             "DESIGN.md section 6 C10", "crash = process death with completed file-system operations persisting in order: no power-loss / write-back reordering model"),
     "C13": ("Coq proof: GENERAL theorems for every invariant state, call and fault plan (others untouched, never wrong bytes, failed store_metadata keeps the old version, the call returns with no lock left unless the flock itself fails; FaultGeneral.v) plus reflective enumeration of ALL fault sites x {one-off, persistent} of each menu scenario by the kernel, lifted to every k by run_fault_beyond (CrashFault.v, Fault13_*.v); P-trace/P-fault correspondence",
-            "general: fault_others_untouched, fault_never_wrong_bytes, store_metadata_fault_intact, fault_returns_no_lock for all Inv states / calls / fault states; any_fault_success_whole_effect (a one-off OR persistent fault after which the call reports success left exactly the permanent files of the undisturbed call - all reachable states, all calls, all positions; FaultSuccess.v, FaultPersist.v); one_off_fault_pid_consistent (a store_object / tag_object that raises after a one-off fault leaves the pid's reference files as before the call or the pid completely unbound, never half-bound - all Inv states, pid bound or not, all variants; FaultBound.v); the literal full statement is PROVED false (persistent read failure defeats the roll-back: C13_general_statement_false = known finding D10); the 'unbound and storable again, or earlier binding intact' clause is proved on the menu: fault_safe for 77 scenarios x all sites x 2 modes except the 80 points of known13 (proved to fail: D10), one_off_all_pass, no_lock_left; implementation: OSError(EIO/ENOSPC/EACCES) injected at the same site, outcome/state/locks compared with run_fault, property oracle on the implementation.",
+            "general: fault_others_untouched, fault_never_wrong_bytes, store_metadata_fault_intact, fault_returns_no_lock for all Inv states / calls / fault states; any_fault_success_whole_effect (a one-off OR persistent fault after which the call reports success left exactly the permanent files of the undisturbed call - all reachable states, all calls, all positions; FaultSuccess.v, FaultPersist.v); one_off_fault_pid_consistent (a store_object / tag_object that raises after a one-off fault leaves the pid's reference files as before the call or the pid completely unbound, never half-bound - all Inv states, pid bound or not, all variants; FaultBound.v); one_off_fault_retry / one_off_fault_intact_or_retry (after a one-off fault a raising tag_object, or store_object(pid) with any readable source and matching size / checksum, leaves the earlier binding intact, or the pid unbound AND the same call issued again at once succeeds from the world the failure left - temp files, untagged object - and binds the pid completely, others untouched; retryable_iff_succeeds: these are exactly the calls that can succeed for an unbound pid; FaultRetry.v); the literal full statement is PROVED false (persistent read failure defeats the roll-back: C13_general_statement_false = known finding D10); the 'unbound and storable again, or earlier binding intact' clause for persistent faults (and once more for one-off ones) is proved on the menu: fault_safe for 77 scenarios x all sites x 2 modes except the 80 points of known13 (proved to fail: D10), one_off_all_pass, no_lock_left; implementation: OSError(EIO/ENOSPC/EACCES) injected at the same site, outcome/state/locks compared with run_fault, property oracle on the implementation.",
             "DESIGN.md section 6 C13", "faults are OSError raised at call entry of the failing operation (opens, renames, removes, mkdirs, file locks, and - since the last extension - every buffer write into a staging file and the append to a cid list; 83 scenarios incl. multi-buffer calls, 582 sites x 2 modes); the in-place rewrite / truncate of a cid list is not a site; reads of the caller's data source are searched on the implementation only; short writes / EINTR are not modelled"),
     "C07": ("Coq proof: reflective exhaustive exploration of ALL schedules of every menu scenario by a proved explorer (explore_sound, Sched.v; scenario_sound, Lin.v), one vm_compute per scenario; P-sched correspondence under a controlled scheduler",
             "general: (1) independence theorem - any pool of calls with pairwise disjoint footprints is linearizable under every schedule, equal to every sequential order (Indep.v); (2) mutual exclusion on every identifier and every modification of a cid reference list happens under that cid's lock, for any pool / schedule / fault pattern (Mutex.v); menu of conflicting calls: lin_pairs: 330 pairs (5 start states x 66 unordered pairs of an 11-call menu) and 245 triples of short calls, every schedule, linearizable and stored-is-retrievable, except the 27 pairs of known07 which are each PROVED to fail "
@@ -80,7 +80,7 @@ CLAIMED = {
             "implementation: every fault site of the C13 menu (writes included) and every failing read of the data source leaves the four lists empty and a follow-up life cycle (store, delete, store, delete of the pid) returns; schedules of C07/C12 scenarios, a complete walk over the orders of the synchronisation steps of the wake-up / lock-order families, a preemption-bounded walk inside critical sections, and random 3-4 thread pools of mixed object/metadata calls complete with nothing locked.",
             "DESIGN.md section 6 C08, 12.2", "a thread blocked inside the kernel, a dead Manager process; Condition.notify() wakes at least one waiter if any waits"),
     "C12": ("Coq proof: reflective exhaustive exploration of all schedules of every metadata scenario by the proved explorer; reader clause as a separate boolean; P-sched correspondence",
-            "general: one_doc_writers_linearizable - any number of store_metadata / delete_metadata(pid, format) calls on one document are linearizable under every schedule, in lock-acquisition order (OneDoc.v); one_doc_writers_readers_linearizable / readers_never_partial - any number of store_metadata and retrieve_metadata calls on one document, every schedule: linearizable with each writer at its rename and each reader at its read, and a reader returns not-found or one COMPLETE version (OneDocReaders.v; pools with deletes stay with the menus); gindep_linearizable / meta_isolation for pools on different documents (IndepMeta.v); menus: lin_pairs: 275 pairs and 414 triples from 5 start states, every schedule; the 9 pairs / 54 triples of known12 are exactly retrieve_metadata racing a delete (FileNotFoundError where the sequential run says ValueError - both 'not found'), "
+            "general: one_doc_writers_linearizable - any number of store_metadata / delete_metadata(pid, format) calls on one document are linearizable under every schedule, in lock-acquisition order (OneDoc.v); one_doc_writers_readers_linearizable / readers_never_partial - any number of store_metadata and retrieve_metadata calls on one document, every schedule: linearizable with each writer at its rename and each reader at its read, and a reader returns not-found or one COMPLETE version (OneDocReaders.v); one_doc_writers_readers_deleters_linearizable / readers_never_partial_del / document_never_partial_del - the same with delete_metadata(pid, format) calls in the pool, each delete at its remove, a reader's FileNotFoundError read as the not-found ValueError (LinNF.nf_norm_one, nothing else relaxed), the document at every moment the start document, a complete stored version or absent (OneDocDel.v); gindep_linearizable / meta_isolation for pools on different documents (IndepMeta.v); menus: lin_pairs: 275 pairs and 414 triples from 5 start states, every schedule; the 9 pairs / 54 triples of known12 are exactly retrieve_metadata racing a delete (FileNotFoundError where the sequential run says ValueError - both 'not found'), "
             "proved linearizable with the two classes identified (LinNF.v); reader never sees a partial document on ANY scenario; witness schedules replayed on the implementation, random schedules judged against its sequential runs.",
             "DESIGN.md section 6 C12, 12.3", "a reader racing the bytes of one write(2); condition variables as for C07"),
     "C16": ("Coq proof: mode selection and creation of the cross-process primitives (Config.v), plus the C05/C08 theorems of the single program model; P-seq and P-sched correspondence run through the multiprocessing code paths; forked-worker search",
